@@ -746,7 +746,11 @@ func lookupOrCreate(w *World, g *graphRoles, cal *types.Func) (keyIdx int, exist
 // path from the beginning of body to the node containing pos (the conditions the
 // node is control dependent on within body), with the outcome required.
 func controllingConds(w *World, fi *FuncInfo, body *ast.BlockStmt, pos token.Pos) ([]ast.Expr, []bool) {
-	fl := NewFlow(w, fi.Pkg, body, fi.Name()+"#body")
+	return controllingCondsInfo(fi.Pkg.TypesInfo, body, pos)
+}
+
+func controllingCondsInfo(info *types.Info, body *ast.BlockStmt, pos token.Pos) ([]ast.Expr, []bool) {
+	fl := newFlowInfo(info, body)
 	byPos := map[string]ast.Expr{}
 	sol := fl.Solve(Spec{Must: true, Edge: func(b *cfg.Block, i int, cond ast.Expr, in Facts) (gen, kill []string) {
 		if cond == nil {
